@@ -149,13 +149,13 @@ Lemma ag_action st x a : appends_good x (action_events NewCode st x a).
 Proof.
   destruct a as [f i kw | o i v | o v]; cbn.
   - apply ag_emit. constructor.
-  - destruct st; [apply ag_dump_file, is_tmp_elem | apply ag_refl].
+  - destruct (in_memory st); [apply ag_refl | apply ag_dump_file, is_tmp_elem].
   - apply ag_dump_file, is_tmp_single.
 Qed.
 
 Lemma ag_persist st c rs x : appends_good x (persist_all NewCode st c rs x).
 Proof.
-  unfold persist_all. destruct st; [apply ag_refl|]. destruct (mapped_outputs c); [|apply ag_refl].
+  unfold persist_all. destruct (in_memory st); [|apply ag_refl]. destruct (mapped_outputs c); [|apply ag_refl].
   apply ag_fold. intros y on. apply ag_dump_file, is_tmp_dict.
 Qed.
 
@@ -173,11 +173,11 @@ Lemma ag_init_fold st x l : forall x0 a0 r, appends_good x x0 ->
   fold_left (init_step NewCode st) l (Ok (x0, a0)) = Ok r -> appends_good x (fst r).
 Proof.
   induction l as [|on l IH]; intros x0 a0 r Hx H; cbn [fold_left] in H; [injection H as <-; exact Hx|].
-  unfold init_step at 2 in H. cbn [bind] in H. destruct st.
-  - eapply IH; [|exact H]. eapply ag_trans; [exact Hx | apply ag_mkdir_p].
+  unfold init_step at 2 in H. cbn [bind] in H. destruct (in_memory st).
   - destruct (load_dict NewCode (fst x0) (fst on) (snd on)) as [cells|e]; cbn [bind] in H.
     + eapply IH; [exact Hx | exact H].
     + rewrite init_step_err in H. discriminate.
+  - eapply IH; [|exact H]. eapply ag_trans; [exact Hx | apply ag_mkdir_p].
 Qed.
 
 Lemma ag_init_store st c x y rs : init_store NewCode st c x = Ok (y, rs) -> appends_good x y.
@@ -185,6 +185,24 @@ Proof.
   unfold init_store. destruct (mapped_outputs c) as [mo|]; cbn [bind]; [|discriminate].
   destruct (fold_left (init_step NewCode st) mo (Ok (x, []))) as [[y0 arrs]|] eqn:E; cbn [bind]; [|discriminate].
   intros H. injection H as <- _. apply (ag_init_fold st x mo x [] (y0, arrs) (ag_refl x) E).
+Qed.
+
+Lemma run_gens_track_fold body c gens : forall ps,
+  fst (run_gens_track body c gens ps)
+  = fold_left (fun acc gen => rdo ps0 <- acc; run_generation body c None ps0 gen) gens (ROk ps).
+Proof.
+  induction gens as [|gen rest IH]; intros ps; cbn [run_gens_track fold_left rbind]; [reflexivity|].
+  destruct (run_generation body c None ps gen) as [ps'|e tr]; [apply IH|]. cbn [fst]. now rewrite rfold_err.
+Qed.
+
+(* the tracked run is Model/MapResume.map_run_sel without a request *)
+Lemma run_gens_track_is_map_run_sel body p inputs user rs shapes :
+  all_shapes user inputs p = Ok shapes ->
+  fst (run_gens_track body {| x_p := p; x_inputs := inputs; x_shapes := shapes |} (generations p)
+                      {| p_store := rs; p_out := []; p_tr := [] |})
+  = map_run_sel body p inputs user None rs.
+Proof.
+  intros H. rewrite run_gens_track_fold. unfold map_run_sel. cbn [validate_fixed lift rbind]. rewrite H. reflexivity.
 Qed.
 
 Section Safe.
@@ -205,12 +223,13 @@ Section Safe.
     destruct (init_store NewCode st c _) as [[x3 rs]|] eqn:Ei; cbn [o_events].
     - apply ag_init_store in Ei.
       assert (H3 : appends_good (s0, []) x3) by (eapply ag_trans; eauto).
-      destruct (map_run_sel body p inputs user None rs) as [ps|e tr]; cbn [o_events].
+      destruct (run_gens_track body c (generations p) _) as [[ps|e tr] rsf]; cbn [o_events].
       + assert (H5 : appends_good (s0, []) (persist_all NewCode st c (p_store ps) (fold_left (action_events NewCode st) (p_tr ps) x3))).
         { eapply ag_trans; [exact H3|]. eapply ag_trans; [apply (ag_fold (action_events NewCode st)); intros; apply ag_action | apply ag_persist]. }
         destruct H5 as [l [-> G]]. cbn. exact G.
-      + assert (H4 : appends_good (s0, []) (fold_left (action_events NewCode st) tr x3)).
-        { eapply ag_trans; [exact H3 | apply (ag_fold (action_events NewCode st)); intros; apply ag_action]. }
+      + match goal with |- good (snd (persist_all NewCode st c ?held _)) => set (hd := held) end.
+        assert (H4 : appends_good (s0, []) (persist_all NewCode st c hd (fold_left (action_events NewCode st) tr x3))).
+        { eapply ag_trans; [exact H3|]. eapply ag_trans; [apply (ag_fold (action_events NewCode st)); intros; apply ag_action | apply ag_persist]. }
         destruct H4 as [l [-> G]]. cbn. exact G.
     - destruct H2 as [l [-> G]]. cbn. exact G.
   Qed.
